@@ -15,9 +15,9 @@ ToSet(s) == {s[i] : i \in 1 .. Len(s)}
 VARIABLES l, tid, c, m, first
 mvars == <<l, tid, c, m, first>>
 
-CfgOf(b) == [hosts |-> b.hosts, pol |-> [kind |-> b.polkind, n |-> b.poln, allow |-> ToSet(b.allow)],
+CfgOf(b) == [hosts |-> b.hosts, pol |-> [kind |-> b.polkind, n |-> b.poln, allow |-> ToSet(b.allow), name |-> b.policy],
              k |-> b.k, idem |-> b.idem, wire |-> b.wire]
-BlankCfg == [hosts |-> <<>>, pol |-> [kind |-> "none", n |-> 0, allow |-> {}], k |-> 0, idem |-> FALSE, wire |-> FALSE]
+BlankCfg == [hosts |-> <<>>, pol |-> [kind |-> "none", n |-> 0, allow |-> {}, name |-> "none"], k |-> 0, idem |-> FALSE, wire |-> FALSE]
 Proj(r) == Ev(r.ev, r.e, r.h, r.n, r.x, r.y)
 
 MInit == l = 1 /\ tid = 0 /\ c = BlankCfg /\ m = MonInit /\ first = 0
